@@ -9,6 +9,7 @@ import (
 	"runtime"
 	"sort"
 	"strings"
+	"sync/atomic"
 	"testing"
 	"testing/synctest"
 	"time"
@@ -34,6 +35,9 @@ type Scenario struct {
 	Actions    []Action             `json:"actions"`
 	Until      int64                `json:"until_ns"`
 	Grid       int64                `json:"grid_ns,omitempty"`
+	// Yield: the observers the library calls out to (Metrics, Logger) yield the processor, so that whatever else is
+	// runnable at that instant runs in between (no time passes): explores interleavings at the call-outs
+	Yield bool `json:"yield,omitempty"`
 	// Env tags: which environment assumptions the generator kept (checked again by the oracle)
 	Env []string `json:"env,omitempty"`
 }
@@ -86,9 +90,17 @@ type WatchPlan struct {
 }
 
 type Action struct {
-	At      int64  `json:"at,omitempty"`
-	After   int64  `json:"after,omitempty"`
-	Do      string `json:"do"`
+	At    int64  `json:"at,omitempty"`
+	After int64  `json:"after,omitempty"`
+	Do    string `json:"do"`
+	// On: instead of a time, the observation of instance OnI that triggers the action, at that very instant:
+	// "log:<code>", "trans:<to-state code>", "flag:<0|1>", "issue:<kind code>"; OnNth picks the occurrence (0 = first)
+	On    string `json:"on,omitempty"`
+	OnI   string `json:"on_i,omitempty"`
+	OnNth int    `json:"on_nth,omitempty"`
+	// SyncNs: the observer that triggered the action waits until the action has completed, at most this long
+	// (a call-out of the library that is slow because the application reacts to it)
+	SyncNs  int64  `json:"sync_ns,omitempty"`
 	I       string `json:"i,omitempty"`
 	Delete  bool   `json:"delete,omitempty"`
 	Wait    bool   `json:"wait,omitempty"`
@@ -382,7 +394,22 @@ func Run(t *testing.T, sc *Scenario) (out []byte, counts map[string]int) {
 				}
 			}()
 		}
-		acts := append([]Action(nil), sc.Actions...)
+		var acts []Action
+		for _, a := range sc.Actions {
+			if a.On != "" {
+				oi := a.OnI
+				if oi == "" {
+					oi = a.I
+				}
+				if in := w.inst(oi); in != nil {
+					w.trigMu.Lock()
+					w.triggers = append(w.triggers, &trigger{idx: in.idx, on: a.On, nth: a.OnNth, act: a})
+					w.trigMu.Unlock()
+				}
+				continue
+			}
+			acts = append(acts, a)
+		}
 		sort.SliceStable(acts, func(i, j int) bool { return acts[i].At < acts[j].At })
 		nextGrid := sc.Grid
 		ai := 0
@@ -424,6 +451,10 @@ func Run(t *testing.T, sc *Scenario) (out []byte, counts map[string]int) {
 		}
 		w.snapshotAll()
 		// wind down: harness cleanup, marked so that monitors do not take it for scenario behaviour
+		// no scenario action is triggered by the harness's own cleanup
+		w.trigMu.Lock()
+		w.triggers = nil
+		w.trigMu.Unlock()
 		tr.rec("end")
 		for _, in := range w.insts {
 			in := in
@@ -442,4 +473,45 @@ func Run(t *testing.T, sc *Scenario) (out []byte, counts map[string]int) {
 		tr.rec("census", int64(libGoroutines()))
 	})
 	return out, counts
+}
+
+// trigger: an action performed when an observation of an instance is made (event-relative stop points etc.)
+type trigger struct {
+	idx  int
+	on   string
+	nth  int
+	seen int
+	done bool
+	act  Action
+}
+
+// fire is called by the observers (Logger, Metrics, store adapter) right after they recorded an observation
+func (w *World) fire(idx int, on string) {
+	w.trigMu.Lock()
+	var run []Action
+	for _, t := range w.triggers {
+		if t.done || t.idx != idx || t.on != on {
+			continue
+		}
+		if t.seen == t.nth {
+			t.done = true
+			run = append(run, t.act)
+		}
+		t.seen++
+	}
+	w.trigMu.Unlock()
+	for _, a := range run {
+		a := a
+		if a.SyncNs > 0 {
+			// no time may pass here (a goroutine waiting for a mutex does not let the simulated clock advance):
+			// yield until the action has completed or cannot get further
+			var done atomic.Bool
+			go func() { w.do(a); done.Store(true) }()
+			for k := 0; k < 400 && !done.Load(); k++ {
+				runtime.Gosched()
+			}
+			continue
+		}
+		go w.do(a)
+	}
 }
